@@ -212,7 +212,12 @@ PROPS["C07"] = dict(
          "rconf configurations and 12 % of the others 1-4 management commands in careless shapes (rconf/member without or with bad arguments, "
          "ids 0 / existing / huge, other letter cases, member list from another database after SELECT; a well-formed add of an unreachable "
          "member only where the real nodes remain a quorum of the enlarged configuration and no fault is planned; replies not judged, a "
-         "refused command must change no membership) (35 % of the crash configurations are the directed ack-then-crash / "
+         "refused command must change no membership; in 15 % of the non-directed runs the clients also issue EXPIRE / SETEX / SET EX|PX|EXAT / "
+         "TTL / PERSIST on keys of their own with deadlines of 1-3 s (some 8-27 s) and idle stretches that cross them: such keys are judged "
+         "by a deadline oracle instead of porcupine (a key given n seconds by a command invoked at ti and acknowledged at tr disappears no "
+         "earlier than floor(ti)+n and no later than tr+n+1 s whichever node is asked, TTL may be off by one, no conclusion inside that "
+         "window) and replicas with the same applied index are compared at the same instant leaving out keys within one second after a "
+         "deadline, also while the finale waits past the pending deadlines) (35 % of the crash configurations are the directed ack-then-crash / "
          "vote-then-crash / vote-then-torn-crash choreographies described under C08); then everything is healed and restarted, every node must answer a fresh "
          "command within 60 simulated seconds and every key is read back on every node; oracles = porcupine over the client history against "
          "the reference model (unanswered commands stay pending), equal keyspace dumps for equal applied index after every step and at the "
@@ -254,7 +259,9 @@ PROPS["C14"] = dict(
     engine="e2", level="exploration",
     rule="one evaluation = one seeded differential run: a program of 6-30 commands over all families whose arguments carry the run's feature "
          "set (spaces, empty strings, CR/LF, non-UTF-8 bytes, mixed case, the filtered commands PUBLISH and SUBSCRIBE in every letter case incl. subscribe-then-publish on one channel; a third of the runs plain; 30 % of the runs configure 2-4 numbered databases on the nodes and on the reference and interleave SELECT with "
-         "valid, out-of-range and malformed indexes, the final comparison covering every database) is executed through "
+         "valid, out-of-range and malformed indexes, the final comparison covering every database; 15 % of the fault-free runs add the time-dependent commands and idle stretches "
+         "described under C07, the reference keeps the same idle stretches, replies on deadline-carrying keys are judged by the deadline oracle "
+         "and the replicas are compared with each other at the same instant outside the one-second expiry windows) is executed through "
          "a standalone Manager.ExecCommand and through a simulated 1-node or 3-node cluster, fault-free or with message drops/reordering and a "
          "leader isolation; oracle = i-th replies equal (unordered collections as multisets, errors by class) and the final keyspace dump of "
          "every replica equals the standalone dump; non-trivial = at least 3 replies compared; distinct = distinct trace hash",
